@@ -454,7 +454,10 @@ impl C04 {
                     match rep.get(k) {
                         None => mon.violation("C04.instance-dependent-not-reported", format!("replaced variable {k} is absent from the reported state\nstate={st:?}\n{}", ctx(&inst))),
                         Some(v) => {
-                            let ok = if chain_exact { f64_eq_q(*v, expected) } else { (q(*v) - expected).abs() <= (expected.abs() + qi(1)) * q(1e-9) + mags.get(k).cloned().unwrap_or_else(|| qi(0)) * q(1e-12) };
+                            // exact verdict only if the function the SDK itself evaluates for k (its stored dependency,
+                            // possibly the composition of several replacements) is exact at this state as well
+                            let stored_exact = inst.decision_variable_dependency.get(k).map_or(false, |f| eval_is_exact(&stored_terms(f), &shadow));
+                            let ok = if chain_exact && stored_exact { f64_eq_q(*v, expected) } else { (q(*v) - expected).abs() <= (expected.abs() + qi(1)) * q(1e-9) + mags.get(k).cloned().unwrap_or_else(|| qi(0)) * q(1e-12) };
                             if !ok {
                                 mon.violation("C04.instance-dependent-value", format!("replaced variable {k} reported as {v:e}; its replacement evaluates to {expected} ({:e})\nstate={st:?}\n{}", q_to_f64(expected), ctx(&inst)));
                             }
